@@ -46,7 +46,7 @@ func c13Check(c timed.Cfg) func(o *obs.Obs) string {
 		// window bound; deliveries at the very instant of the cancel may already follow it (after cancel
 		// the pacer closes its token channel and the stage is no longer throttled), so only deliveries
 		// strictly earlier than the cancel are counted
-		I := int64(c.Interval)
+		I := max(int64(c.Interval), 0) // an interval below zero is no pacing, like zero
 		ev := o.Logs["got"]
 		var cancelT int64 = 1 << 62
 		if cancelled {
@@ -97,7 +97,7 @@ func c13Count(c timed.Cfg) func(o *obs.Obs, counters, maxima map[string]int) {
 		if o.Has("cancel") {
 			return
 		}
-		I := int64(c.Interval)
+		I := max(int64(c.Interval), 0)
 		ev := o.Logs["got"]
 		best := 0
 		for a := range ev {
@@ -180,6 +180,20 @@ func c13Scenarios(tier string) []e1lib.Scenario {
 				gaps := make([]int, k)
 				gaps[0] = I
 				add(timed.Cfg{Kind: "throttle", Ops: ops, Interval: I, Cap: cp, K: k, ConsGaps: gaps, CancelAt: at})
+			}
+		}
+	}
+	// an interval of zero (or below) is "no pacing": the stage is then a plain copy - every element, in order, and the
+	// output closes when the input does (the rate clauses are empty for a window of length zero)
+	for _, iv := range []int{0, -1} {
+		for ops := 1; ops <= 2; ops++ {
+			for cp := 0; cp <= 1; cp++ {
+				for _, pg := range []int{0, 2} {
+					for _, g := range []int{0, 3} {
+						gaps := []int{g, 0, g, 0, 0}
+						add(timed.Cfg{Kind: "throttle", Ops: ops, Interval: iv, Cap: cp, K: 5, ProdGap: pg, ConsGaps: gaps, CancelAt: -1})
+					}
+				}
 			}
 		}
 	}
